@@ -27,10 +27,10 @@ def run(ctx):
                         'of a split carry the parent\'s report (so "has reported" can be read off the cached regions at the moment of the transition)',
                         'the wait-async timeout is configuration: 0 = passed, 1 h = not passed']
     ctx.mc('replication', 'DRAutoSync', 'MC_DRAutoSync.cfg' if q else 'MC_DRAutoSync_thorough.cfg', timeout=3000)
-    seeds = [ctx.seed] if q else [ctx.seed + k for k in range(4)]
+    seeds = [ctx.seed] if q else [ctx.seed + k for k in range(8)]
     for sd in seeds:
         tr = os.path.join(ctx.dir, 'dr_%d.ndjson' % sd)
-        vlib.run_harness(['repl', 'dr', 'out=' + tr, 'seed=%d' % sd, 'histories=%d' % (60 if q else 300), 'ops=80', 'big=%d' % (1 if q else 4)], timeout=2400)
+        vlib.run_harness(['repl', 'dr', 'out=' + tr, 'seed=%d' % sd, 'histories=%d' % (60 if q else 1200), 'ops=80', 'big=%d' % (1 if q else 8)], timeout=2400)
         bad, evs = ctx.monitor_all('replication', 'Mon_DRAutoSync', 'Mon_DRAutoSync.cfg', tr, 'dr_%d' % sd, timeout=3000)
         handle(ctx, bad, evs, 'dr_%d' % sd)
         trans = {}
